@@ -1280,9 +1280,25 @@ func (d *jdecoder) decode(t types.Type, n *jnode, dst *Value) {
 			d.typeErr(n, t)
 			return
 		}
-		out := make([]Value, len(n.elems))
+		// like encoding/json: the slice is reset to length 0 and refilled; elements that
+		// fit the existing capacity are decoded into the existing memory (not zeroed:
+		// members the JSON omits keep what the backing array held)
+		prev, _ := (*dst).([]Value)
+		full := prev[:cap(prev)]
+		var out []Value
+		if len(n.elems) <= len(full) {
+			out = full[:len(n.elems)]
+		} else {
+			out = make([]Value, len(n.elems))
+			copy(out, full)
+			for i := len(full); i < len(out); i++ {
+				out[i] = in.zero(u.Elem())
+			}
+		}
 		for i, e := range n.elems {
-			out[i] = in.zero(u.Elem())
+			if out[i] == nil {
+				out[i] = in.zero(u.Elem())
+			}
 			d.decode(u.Elem(), e, &out[i])
 		}
 		*dst = out
